@@ -231,7 +231,8 @@ private def demoLegacyOut : Out :=
 /-! ### whole-life histories: the full alphabet, real sessions, restarts, legacy start states
 
   `HOp` = pair-setup completion | pair-verify exchange on a connection | `POST /pairings` on a connection |
-  configuration-number increment | database-hash update | restart.  `HRel parse w a who` ties the
+  configuration-number increment | database-hash update (what `async_start` does) | restart (fresh process on the
+  file) | stop (`async_stop` of the running driver object, which may be started again).  `HRel parse w a who` ties the
   accessory `w` (three maps, handler fields of every connection, persisted identity) to what an observer
   of the ANSWERS holds: the pairing list `a` (identifier bytes `none` = never seen: a controller imported
   from a state file that does not record them) and, per connection, the controller `who c` that last
@@ -378,6 +379,7 @@ theorem C06_history_error_atomic (parse : Bytes → Option Uuid) (w : World) (a 
   | restart =>
     simp only [hstep]
     split <;> refine ⟨fun r wr he => ?_, fun wr he => ?_⟩ <;> simp at he
+  | stop => refine ⟨fun r wr he => ?_, fun wr he => ?_⟩ <;> simp [hstep] at he
 
 /-- Last admin over the full alphabet: whenever an operation of a whole-life history makes some paired
     controller unpaired, the result still has a paired admin or no pairing and no permission entry at all.
@@ -405,6 +407,7 @@ theorem C06_history_last_admin (parse : Bytes → Option Uuid) (w : World) (a : 
   | restart =>
     exfalso; apply hafter
     simp only [hstep, restart_identity (by decide) w.acc h.wf]; exact hbefore
+  | stop => exact absurd hbefore hafter
 
 /-- Never leaves orphans, over all three maps: after every whole-life history `paired_clients` and
     `client_properties` hold exactly the same controllers (each once) — no key without permissions, no
@@ -512,7 +515,7 @@ private def demoWorld : World := ⟨⟨"AA:BB", 65535, none, demoKey32, demoKey3
 private def demoAddBody : Bytes := Tlv.encode [(tReq, [3]), (tUser, [66]), (tPub, [9]), (tPerm, [0])]
 private def demoLife : List HOp :=
   [.s (.setup [65] [1, 2, 3]), .s (.verify 0 ⟨true, some [65], some [1, 2, 3]⟩), .s (.req 0 demoAddBody),
-   .hsh (some "h"), .restart, .s (.verify 3 ⟨true, some [66], some [9]⟩), .s (.verify 4 ⟨true, some [65], some [1, 2, 3]⟩)]
+   .hsh (some "h"), .stop, .hsh (some "h"), .restart, .s (.verify 3 ⟨true, some [66], some [9]⟩), .s (.verify 4 ⟨true, some [65], some [1, 2, 3]⟩)]
 
 example : HRel demoParse demoWorld [] (fun _ => none) :=
   C06_start_fresh demoParse _ _ _ _ _ (by decide) (by decide)
